@@ -64,8 +64,9 @@ def classify(line):
     """Stable key of a property violation (kind=spec mismatch)."""
     m = re.search(r"what=(\w+)", line)
     what = m.group(1) if m else "?"
-    if what in ("routing_newclient", "disconnect_newclient"):
-        # both are faces of the same defect: ActiveRequest addresses its client by slot index; the (agreeing) model
+    if what in ("routing_newclient", "disconnect_newclient", "disconnect_spurious_newclient"):
+        # all are faces of the same defect: ActiveRequest addresses its client by slot index (a response reaches the new
+        # client, the stale ActiveRequest reports connected again, its drop closes the new client's channel); the (agreeing) model
         # says the ActiveRequest's connection slot now belongs to ANOTHER client than the one that sent the request
         return "routing:stale-active-request-reaches-new-client"
     if what in ("routing", "disconnect"):
